@@ -17,7 +17,7 @@ from vlib import tlc
 LEVEL = "model_checking"
 MANIFEST = {
     "technique": "TLA+ specification of the access policy and of the decorator chain (Acl.tla, AclPipeline.tla): TLC model-checks that the chain implements the policy, enumerates all (route class, caller, world, target, variant) requests, and judges every recorded call of the real aiohttp handlers (call/return conformance, B3)",
-    "text": "Exhaustive over every route registered in the front end's route table x 8 callers (owner, member, outsider, developer, auth service, inactive user, inactive developer, anonymous) x 4 membership worlds x 2 target batches/projects x input variants (fresh / known update token, three listing queries); each request runs through the real decorated handler on the real SQL (MiniMySQL) from a restored database, and the verdict on (outcome class, tables changed, items shown) is computed by TLC from the policy. Bounded-universe model checking of a configuration- and input-quantified property.",
+    "text": "Exhaustive over every route registered in the front end's route table x 9 callers (owner, member, outsider, developer, auth service, another service account, inactive user, inactive developer, anonymous) x 4 membership worlds x 2 target batches/projects x input variants (fresh / known update token, three listing queries); each request runs through the real decorated handler on the real SQL (MiniMySQL) from a restored database, and the verdict on (outcome class, tables changed, items shown) is computed by TLC from the policy. Bounded-universe model checking of a configuration- and input-quantified property.",
     "note": "Trusts: TLC + CommunityModules; MiniMySQL; the route->class table (method + path patterns) and the request bodies in checks/_acl.py; the fake authenticator (_fetch_userdata replaced by a caller table) - session lookup in the auth service, CSRF and the other middlewares are not in the loop; JSON_QUOTE/JSON_CONTAINS modelled as SQL functions; listings whose SQL (WITH ...) the engine cannot run are judged on the user bound to their membership filter only; a handler stopped by an unsupported statement counts as 'body reached'.",
     "design_ref": "DESIGN.md section 5, C14",
 }
@@ -160,13 +160,13 @@ def run(ctx):
     dis_kinds = collections.Counter(f"{mt['handler']}: model {v['model']}, real {c['status']} {c['outcome']}" for c, mt, v in disagree)
     filt_routes = sorted({mt["route"] for c, mt in zip(cases, meta) if c["mode"] == "filter"})
     unsup_routes = sorted({mt["route"] for mt in meta if mt["unsupported_sql"]})
-    create_nonmember = collections.Counter(c["outcome"] for c in cases if c["cls"] == "create" and c["caller"] in ("u3", "dev", "auth"))
+    create_nonmember = collections.Counter(c["outcome"] for c in cases if c["cls"] == "create" and c["caller"] in ("u3", "dev", "auth", "ci"))
     ctx.cov.update(
         states=ctx.cov["states"] + 2 * len(cases), transitions=ctx.cov["transitions"] + len(cases),
         traces_validated_against_impl=len(cases), evaluations=len(cases), distinct_observations_judged_by_tlc=len(uniq),
         distinct_nontrivial=len({(mt["route"], c["caller"], c["world"], c["target"], c["variant"], mt["rep"]) for c, mt, v in zip(cases, meta, verdict) if not v["allowed"]}),
         exhaustive=True,
-        rule=f"TLC enumerates {len(requests)} requests (9 route classes x 8 callers x 4 worlds x targets x variants); every one of the {len(routes)} "
+        rule=f"TLC enumerates {len(requests)} requests (9 route classes x 9 callers x 4 worlds x targets x variants); every one of the {len(routes)} "
              f"registered routes is driven with every request of its class in {len(reps)} concretisation(s) {reps}; each record is judged by TLC with Policy; "
              "non-trivial = a request by a caller the policy does not allow; a call/return pair counts as two states and one transition")
     ctx.cov["routes"] = {"registered": len(routes), "per_class": dict(per_class)}
